@@ -105,6 +105,34 @@ GENERATED_PROGRAMS = [
 ]
 
 
+# a call hoisted out of a larger expression writes into a temporary; only a function that is the WHOLE right-hand side may write
+# straight into the assignment target - otherwise the tool's temporary and the user's variable would be one identifier
+RESULT_CELL_PROGRAMS = [
+    "10 S=INT(X)+S", "10 S=INT(X)+INT(S/2)", "10 S=INT(X)*(S-1)", "10 S=S+INT(X)", "10 S=INT(S)+1", "10 S=INT(X)", "10 S$=STR$(X)+S$",
+    "10 S$=S$+STR$(X)", "10 S=VAL(A$)-S", "10 S=BUTTON(0)+S*2", "10 S$=HEX$(S)+S$", "10 P=INSTR(1,A$,B$)+P", "10 S=INT(X):S=INT(X)+S",
+    "10 IF INT(X)+S>2 THEN S=INT(X)+S", "10 FOR S=INT(X)+S TO 5:NEXT", "10 S(1)=INT(X)+S(1)", "10 PRINT INT(X)+S",
+]
+
+
+def result_cell_impl(text):
+    from coco.b09.compiler import convert
+    import b09text as T
+    try:
+        out = convert(text, add_standard_prefix=False, add_suffix=False)
+    except Exception as e:  # noqa: BLE001
+        return "rejected " + type(e).__name__
+    bad = []
+    for line in out.split("\n"):
+        stmts = T.split_statements(T.code_tokens(T.line_label(line)[1]))
+        for k, st in enumerate(stmts):
+            for callee, args, _ in T.run_calls(st):
+                if args and k + 1 < len(stmts):
+                    cell = "".join(t for _, t in args[-1])
+                    if not cell.startswith("tmp_") and cell not in ("display", "play", "pid"):
+                        bad.append(f"{callee}->{cell}")
+    return "ok " + hexs(",".join(bad).encode())
+
+
 def generated_case_impl(text):
     from coco.b09.compiler import convert
     res = []
@@ -128,6 +156,8 @@ def cases(tier):
     out = []
     for t in GENERATED_PROGRAMS:
         out.append({"fmt": "names", "kind": "generated-ident", "name": "A", "text": t, "rx": "", "req": "ping"})
+    for t in RESULT_CELL_PROGRAMS:
+        out.append({"fmt": "names", "kind": "result-cell", "name": "S", "text": t, "rx": "", "req": "ping"})
     for n in ns:
         tpls = TEMPLATES if tier == "thorough" or n in RESERVED or len(n) <= 2 and r.randrange(4) == 0 else r.sample(TEMPLATES, 5)
         for kind, tpl, rx in tpls:
@@ -139,9 +169,10 @@ def cases(tier):
 def run(tier):
     cs = cases(tier)
     model = run_driver([c["req"] for c in cs])
-    impl = [generated_case_impl(c["text"]) if c["kind"] == "generated-ident" else impl_ident(c["text"], c["rx"]) for c in cs]
+    impl = [generated_case_impl(c["text"]) if c["kind"] == "generated-ident" else result_cell_impl(c["text"]) if c["kind"] == "result-cell"
+            else impl_ident(c["text"], c["rx"]) for c in cs]
     for k, c in enumerate(cs):
-        if c["kind"] == "generated-ident":
+        if c["kind"] in ("generated-ident", "result-cell"):
             model[k] = impl[k]          # no model side: the rule is the oracle's
     # names the grammar refuses (they start with a keyword) are outside the model's domain
     for k, i in enumerate(impl):
@@ -177,6 +208,15 @@ GENERATED = {"display", "play", "pid", "erno", "errnum", "ERNO", "joy0x", "joy0y
 
 
 def oracle(case, impl):
+    if case["kind"] == "result-cell":
+        if not impl.startswith("ok "):
+            return None if impl.startswith("rejected") else f"{case['text']!r}: {impl}"
+        from common import unhex
+        bad = unhex(impl[3:]).decode()
+        if bad:
+            return (f"{case['text']!r}: a call hoisted out of a larger statement writes into a user variable ({bad}): the tool's "
+                    f"temporary and the user's variable are one identifier")
+        return None
     if case["kind"] == "generated-ident":
         if not impl.startswith("ok "):
             return f"{case['text']!r} is not converted: {impl}"
